@@ -474,11 +474,15 @@ func (c *rmCtx) leafBlock(n *RouteNode, list []ast.Stmt, prefixObj types.Object,
 					und("non-constant leaf prefix")
 					continue
 				}
-				if len(cl.Body) != 1 {
+				clBody := cl.Body
+				if sw2, n := c.ifRunAsSwitch(clBody); n == len(clBody) && n > 0 {
+					clBody = []ast.Stmt{sw2}
+				}
+				if len(clBody) != 1 {
 					und("leaf prefix %q: body is not a single method switch", pre)
 					continue
 				}
-				ms, ok := c.methodSwitch(cl.Body[0], und)
+				ms, ok := c.methodSwitch(clBody[0], und)
 				if !ok {
 					und("leaf prefix %q: body is not a method switch", pre)
 					continue
@@ -493,7 +497,12 @@ func (c *rmCtx) leafBlock(n *RouteNode, list []ast.Stmt, prefixObj types.Object,
 		}
 	}
 	if i < len(list) {
-		if ms, ok := c.methodSwitch(list[i], und); ok {
+		if sw2, k := c.ifRunAsSwitch(list[i:]); k > 0 {
+			if ms, ok := c.methodSwitch(sw2, und); ok {
+				n.VarLeaf = ms
+				i += k
+			}
+		} else if ms, ok := c.methodSwitch(list[i], und); ok {
 			n.VarLeaf = ms
 			i++
 		}
@@ -506,6 +515,38 @@ func (c *rmCtx) leafBlock(n *RouteNode, list []ast.Stmt, prefixObj types.Object,
 	for ; i < len(list); i++ {
 		und("unconsumed statement %T in leaf block", list[i])
 	}
+}
+
+// ifRunAsSwitch: a run of `if method == C { … }` statements (no else, no init) at the head of list is the
+// same dispatch as `switch method { case C: … }` when every body ends in a return; returns the
+// synthesised switch and the number of statements it replaces.
+func (c *rmCtx) ifRunAsSwitch(list []ast.Stmt) (*ast.SwitchStmt, int) {
+	var clauses []ast.Stmt
+	n := 0
+	var tag ast.Expr
+	for _, st := range list {
+		ifs, ok := st.(*ast.IfStmt)
+		if !ok || ifs.Init != nil || ifs.Else != nil || len(ifs.Body.List) == 0 {
+			break
+		}
+		be, ok := ast.Unparen(ifs.Cond).(*ast.BinaryExpr)
+		if !ok || be.Op != token.EQL || !c.isObj(be.X, c.method) {
+			break
+		}
+		if _, isConst := c.constStr(be.Y); !isConst {
+			break
+		}
+		if _, isRet := ifs.Body.List[len(ifs.Body.List)-1].(*ast.ReturnStmt); !isRet {
+			break
+		}
+		tag = be.X
+		clauses = append(clauses, &ast.CaseClause{Case: ifs.Pos(), List: []ast.Expr{be.Y}, Colon: ifs.Body.Lbrace, Body: ifs.Body.List})
+		n++
+	}
+	if n == 0 {
+		return nil, 0
+	}
+	return &ast.SwitchStmt{Switch: list[0].Pos(), Tag: tag, Body: &ast.BlockStmt{Lbrace: list[0].Pos(), List: clauses, Rbrace: list[n-1].End()}}, n
 }
 
 func (c *rmCtx) methodSwitch(st ast.Stmt, und func(string, ...any)) (*MethodSwitch, bool) {
@@ -571,6 +612,16 @@ func (c *rmCtx) leaf(body []ast.Stmt, und func(string, ...any)) *Leaf {
 	if len(body) == 0 {
 		und("empty method arm")
 		return nil
+	}
+	// the arm's tail extracted into a helper: `return rt.corsRoute(methods, headers)`
+	if len(body) == 1 {
+		if ret, ok := body[0].(*ast.ReturnStmt); ok && len(ret.Results) == 1 {
+			if _, isRoute := c.routeCall(ret.Results[0]); !isRoute {
+				if exp, ok := c.p.inliner().expandTailCall(body); ok {
+					body = exp
+				}
+			}
+		}
 	}
 	// CORS form
 	if ifs, ok := body[0].(*ast.IfStmt); ok {
@@ -667,6 +718,16 @@ func (c *rmCtx) leaf(body []ast.Stmt, und func(string, ...any)) *Leaf {
 			return nil
 		}
 		call, ok := as.Rhs[0].(*ast.CallExpr)
+		if ok {
+			// the wrap behind a one-expression helper: `h = withAuth(h, []AuthMiddleware{…})`
+			if inner, isCall := firstCallArg(call); !isCall || inner == nil {
+				if e, ok2 := c.p.inliner().expandExprCall(call); ok2 {
+					if ec, ok3 := ast.Unparen(e).(*ast.CallExpr); ok3 {
+						call = ec
+					}
+				}
+			}
+		}
 		if !ok || len(call.Args) != 2 || !c.isObj(call.Args[0], h) {
 			und("operation arm: wrap is not middlewares(h, authMiddlewareOr(...))")
 			return nil
@@ -688,7 +749,14 @@ func (c *rmCtx) leaf(body []ast.Stmt, und func(string, ...any)) *Leaf {
 			return nil
 		}
 		lf.authOrFn = orFn
-		for _, a := range inner.Args {
+		authArgs := inner.Args
+		if inner.Ellipsis.IsValid() && len(inner.Args) == 1 {
+			// authMiddlewareOr([]AuthMiddleware{a, b}...)
+			if cl, ok := ast.Unparen(inner.Args[0]).(*ast.CompositeLit); ok {
+				authArgs = cl.Elts
+			}
+		}
+		for _, a := range authArgs {
 			f := c.rtField(a)
 			if f == nil {
 				und("operation arm: authenticator is not a field of the receiver")
@@ -922,9 +990,16 @@ func buildServeModel(p *Program, fd *ast.FuncDecl) *ServeModel {
 	}
 	// 2. spec branch
 	if ifs, ok := list[1].(*ast.IfStmt); ok && ifs.Else == nil && ifs.Init == nil {
-		if be, ok := ifs.Cond.(*ast.BinaryExpr); ok && be.Op == token.LAND {
-			l, okl := be.X.(*ast.BinaryExpr)
-			r2, okr := be.Y.(*ast.BinaryExpr)
+		cond := ifs.Cond
+		if call, isCall := ast.Unparen(cond).(*ast.CallExpr); isCall {
+			// the test extracted into a read-only helper: `if rt.isSpecFileRequest(path)`
+			if e, ok := p.inliner().expandExprCall(call); ok {
+				cond = e
+			}
+		}
+		if be, ok := ast.Unparen(cond).(*ast.BinaryExpr); ok && be.Op == token.LAND {
+			l, okl := ast.Unparen(be.X).(*ast.BinaryExpr)
+			r2, okr := ast.Unparen(be.Y).(*ast.BinaryExpr)
 			if okl && okr && l.Op == token.NEQ && isNilIdent(l.Y) && r2.Op == token.EQL && c.isObj(r2.X, pathObj) {
 				specField := c.rtField(l.X)
 				if k, ok := c.constStr(r2.Y); ok && specField != nil {
@@ -1019,7 +1094,7 @@ func buildServeModel(p *Program, fd *ast.FuncDecl) *ServeModel {
 		return sm
 	}
 	// 5. if hasPath { r = r.WithContext(context.WithValue(r.Context(), pathKey{}, path)); for i := len(rt.Middlewares)-1; i >= 0; i-- { h = rt.Middlewares[i](h) } }
-	if ifs, ok := list[4].(*ast.IfStmt); ok && ifs.Else == nil && ifs.Init == nil && c.isObj(ifs.Cond, hasPath) && len(ifs.Body.List) == 2 {
+	if ifs, ok := list[4].(*ast.IfStmt); ok && ifs.Else == nil && ifs.Init == nil && c.isObj(ifs.Cond, hasPath) && len(ifs.Body.List) >= 2 {
 		if as, ok := ifs.Body.List[0].(*ast.AssignStmt); ok && as.Tok == token.ASSIGN && len(as.Lhs) == 1 && c.isObj(as.Lhs[0], req) {
 			if wc, ok := as.Rhs[0].(*ast.CallExpr); ok && len(wc.Args) == 1 {
 				if sel, ok := wc.Fun.(*ast.SelectorExpr); ok && sel.Sel.Name == "WithContext" && c.isObj(sel.X, req) {
@@ -1040,10 +1115,16 @@ func buildServeModel(p *Program, fd *ast.FuncDecl) *ServeModel {
 				}
 			}
 		}
-		switch ifs.Body.List[1].(type) {
-		case *ast.ForStmt, *ast.RangeStmt:
+		if len(ifs.Body.List) == 2 {
+			switch ifs.Body.List[1].(type) {
+			case *ast.ForStmt, *ast.RangeStmt:
+				sm.LoopInsideHasPath = true
+				sm.LoopReverse = c.reverseWrapLoop(ifs.Body.List[1], h)
+			}
+		} else if c.reversedCopyThenForward(ifs.Body.List[1:], h) {
+			// a private reversed copy of rt.Middlewares walked forward
 			sm.LoopInsideHasPath = true
-			sm.LoopReverse = c.reverseWrapLoop(ifs.Body.List[1], h)
+			sm.LoopReverse = true
 		}
 	}
 	if !sm.CtxStoreOK {
@@ -1111,6 +1192,105 @@ func (c *rmCtx) reverseWrapLoopAfter(loop ast.Stmt, before []ast.Stmt, h types.O
 		return false
 	}
 	return newRevLoop(c.info, loop, before, isSlice).visitsDescending(ix.Index)
+}
+
+// reversedCopyThenForward: stmts = `W := <copy of rt.F>` ; <in-place reversal of W> ; `for _, w := range W { h = w(h) }`
+// — the elements of rt.F are applied to h in descending index order through a private copy.
+func (c *rmCtx) reversedCopyThenForward(stmts []ast.Stmt, h types.Object) bool {
+	if len(stmts) != 3 {
+		return false
+	}
+	// 1. the copy
+	as, ok := stmts[0].(*ast.AssignStmt)
+	if !ok || as.Tok != token.DEFINE || len(as.Lhs) != 1 || len(as.Rhs) != 1 {
+		return false
+	}
+	w := identObj(c.info, as.Lhs[0])
+	call, ok := ast.Unparen(as.Rhs[0]).(*ast.CallExpr)
+	if w == nil || !ok {
+		return false
+	}
+	var src *types.Var
+	switch {
+	case calleeName(c.info, call) == "slices.Clone" && len(call.Args) == 1:
+		src = c.rtField(call.Args[0])
+	default:
+		if id, isId := call.Fun.(*ast.Ident); isId && id.Name == "append" && len(call.Args) == 2 && call.Ellipsis.IsValid() {
+			// append([]T(nil), rt.F...) / append([]T{}, rt.F...)
+			fresh := false
+			switch b := ast.Unparen(call.Args[0]).(type) {
+			case *ast.CallExpr:
+				if tv, ok := c.info.Types[b.Fun]; ok && tv.IsType() && len(b.Args) == 1 && isNilIdent(b.Args[0]) {
+					fresh = true
+				}
+			case *ast.CompositeLit:
+				fresh = len(b.Elts) == 0
+			}
+			if fresh {
+				src = c.rtField(call.Args[1])
+			}
+		}
+	}
+	if src == nil {
+		return false
+	}
+	// 2. the reversal of W in place
+	reversed := false
+	switch r := stmts[1].(type) {
+	case *ast.ExprStmt:
+		if rc, ok := r.X.(*ast.CallExpr); ok && calleeName(c.info, rc) == "slices.Reverse" && len(rc.Args) == 1 && c.isObj(rc.Args[0], w) {
+			reversed = true
+		}
+	case *ast.ForStmt:
+		reversed = c.isSwapReversal(r, w)
+	}
+	if !reversed {
+		return false
+	}
+	// 3. forward walk applying each element to h
+	rs, ok := stmts[2].(*ast.RangeStmt)
+	if !ok || !c.isObj(rs.X, w) || rs.Value == nil || len(rs.Body.List) != 1 {
+		return false
+	}
+	if k, isId := rs.Key.(*ast.Ident); rs.Key != nil && (!isId || k.Name != "_") {
+		return false
+	}
+	el := identObj(c.info, rs.Value)
+	a2, ok := rs.Body.List[0].(*ast.AssignStmt)
+	if !ok || a2.Tok != token.ASSIGN || len(a2.Lhs) != 1 || !c.isObj(a2.Lhs[0], h) {
+		return false
+	}
+	ac, ok := a2.Rhs[0].(*ast.CallExpr)
+	return ok && len(ac.Args) == 1 && c.isObj(ac.Args[0], h) && el != nil && c.isObj(ac.Fun, el)
+}
+
+// isSwapReversal: for i, j := 0, len(W)-1; i < j; i, j = i+1, j-1 { W[i], W[j] = W[j], W[i] }
+func (c *rmCtx) isSwapReversal(f *ast.ForStmt, w types.Object) bool {
+	i, j, ok := twoIndexLoop(c, f, w)
+	if !ok {
+		return false
+	}
+	if len(f.Body.List) != 1 {
+		return false
+	}
+	sw, ok := f.Body.List[0].(*ast.AssignStmt)
+	if !ok || len(sw.Lhs) != 2 || len(sw.Rhs) != 2 {
+		return false
+	}
+	isAt := func(e ast.Expr, idx types.Object) bool {
+		ix, ok := e.(*ast.IndexExpr)
+		return ok && c.isObj(ix.X, w) && c.isObj(ix.Index, idx)
+	}
+	return isAt(sw.Lhs[0], i) && isAt(sw.Lhs[1], j) && isAt(sw.Rhs[0], j) && isAt(sw.Rhs[1], i)
+}
+
+// firstCallArg: the second argument of a two-argument call when it is itself a call.
+func firstCallArg(call *ast.CallExpr) (*ast.CallExpr, bool) {
+	if len(call.Args) != 2 {
+		return nil, false
+	}
+	in, ok := ast.Unparen(call.Args[1]).(*ast.CallExpr)
+	return in, ok
 }
 
 // schemaPathReadsKey: SchemaPath reads r.Context().Value(<keyT>{}) asserted to string.
